@@ -63,25 +63,27 @@ def check(tier, seed, goenv, log):
         # (2) extension vocabularies
         n_ext = 4 if tier == "thorough" else 1
         t2 = os.path.join(ROOT, "bin", "t2")
-        for e in range(n_ext):
-            eseed = seed * 1000 + e
+        # random extensions, and as many directed ones (several parents, withheld properties reachable through another parent)
+        for e in range(2 * n_ext):
+            eseed = seed * 1000 + e // 2
+            mode = ["random", "structured"][e % 2]
             d = os.path.join(scratch, "ext%d" % e)
             os.makedirs(os.path.join(d, "astool"))
             ext = os.path.join(d, "astool", "ext.jsonld")
-            rc, out = run([sys.executable, os.path.join(ROOT, "translators/gen_extension.py"), str(eseed), ext])
+            rc, out = run([sys.executable, os.path.join(ROOT, "translators/gen_extension.py"), str(eseed), ext, mode])
             ont = json.load(open(ext))
             for s in SPECS:
                 shutil.copy(os.path.join(REPO, "astool", s), os.path.join(d, "astool", s))
             rc, out = run([tool] + specs + ["-spec", ext, "-path", "ext.example/gen", "./streams"], cwd=d, env=goenv)
             cases += 1
             if rc != 0:
-                failures.append({"what": "astool rejects a well-formed extension vocabulary", "detail": out[-2500:], "input": {"extSeed": eseed, "ontology": ont}})
+                failures.append({"what": "astool rejects a well-formed extension vocabulary", "detail": out[-2500:], "input": {"extSeed": eseed, "mode": mode, "ontology": ont}})
                 continue
             open(os.path.join(d, "go.mod"), "w").write("module ext.example/gen\n\ngo 1.16\n")
             rc, out = run(["go", "build", "./..."], cwd=d, env=goenv)
             cases += 1
             if rc != 0:
-                failures.append({"what": "the code astool emits for an extension vocabulary does not compile", "detail": out[-2500:], "input": {"extSeed": eseed, "ontology": ont}})
+                failures.append({"what": "the code astool emits for an extension vocabulary does not compile", "detail": out[-2500:], "input": {"extSeed": eseed, "mode": mode, "ontology": ont}})
                 continue
             # the regenerated tables of the extended vocabulary must satisfy the same kernel-checked table theorems
             # (C12 landing order, C13 hierarchy predicates = closure of the ontology, C14 resolver dispatch)
@@ -91,12 +93,12 @@ def check(tier, seed, goenv, log):
             rc2, out2 = run([t2, d])
             if rc1 != 0 or rc2 != 0:
                 failures.append({"what": "the translators cannot read the generated extension tree (its shape differs from the shipped templates)",
-                                 "detail": (out1 + out2)[-2500:], "input": {"extSeed": eseed, "ontology": ont}})
+                                 "detail": (out1 + out2)[-2500:], "input": {"extSeed": eseed, "mode": mode, "ontology": ont}})
                 continue
             open(os.path.join(g, "impl.json"), "w").write(out2)
             errs = json.loads(out2).get("errors", [])
             if errs:
-                failures.append({"what": "generated extension code departs from the template shapes", "detail": "; ".join(errs[:5]), "input": {"extSeed": eseed, "ontology": ont}})
+                failures.append({"what": "generated extension code departs from the template shapes", "detail": "; ".join(errs[:5]), "input": {"extSeed": eseed, "mode": mode, "ontology": ont}})
                 continue
             rc, out = run([sys.executable, os.path.join(ROOT, "translators/gen_lean.py"), g, os.path.join(ROOT, "lean")])
             rc, out = run(["lake", "build", "AV.GenProps.C12", "AV.GenProps.C13", "AV.GenProps.C14"], cwd=os.path.join(ROOT, "lean"))
@@ -123,8 +125,8 @@ def check(tier, seed, goenv, log):
                     known = None
                 failures.append({"what": "the table theorems (C12/C13/C14) fail on the tables regenerated from the extension's code" +
                                          (": natural-language property generated without its language map" if known else ""),
-                                 "detail": "\n".join(errl) + "\n" + outd[-600:], "input": {"extSeed": eseed, "ontology": ont}, "known": known})
-            notes.append("extension %d: %d members, compiled, table theorems %s" % (eseed, len(ont["members"]), "hold" if rc == 0 else "FAIL"))
+                                 "detail": "\n".join(errl) + "\n" + outd[-600:], "input": {"extSeed": eseed, "mode": mode, "ontology": ont}, "known": known})
+            notes.append("extension %d (%s): %d members, compiled, table theorems %s" % (eseed, mode, len(ont["members"]), "hold" if rc == 0 else "FAIL"))
         return cases, failures, notes
     finally:
         shutil.rmtree(scratch, ignore_errors=True)
